@@ -486,13 +486,13 @@ pub fn run_stream(
                             Err(errstr(e))
                         }
                     };
-                    out.events.push(StreamEvent {
+                    crate::heap::driver(|| out.events.push(StreamEvent {
                         op,
                         offered: n,
                         result: ev,
                         sink_len: st.borrow().accepted.len(),
                             fault_fired: st.borrow().fired_hard > fired_before,
-                    });
+                    }));
                 }
                 OP_WRITE_ALL | OP_WRITE_N => {
                     let end = if op == OP_WRITE_ALL {
@@ -527,13 +527,13 @@ pub fn run_stream(
                                 Err(errstr(e))
                             }
                         };
-                        out.events.push(StreamEvent {
+                        crate::heap::driver(|| out.events.push(StreamEvent {
                             op,
                             offered: n,
                             result: ev,
                             sink_len: st.borrow().accepted.len(),
                             fault_fired: st.borrow().fired_hard > fired_before,
-                        });
+                        }));
                         if stop {
                             break;
                         }
@@ -541,13 +541,13 @@ pub fn run_stream(
                 }
                 OP_FLUSH => {
                     let res = s.flush();
-                    out.events.push(StreamEvent {
+                    crate::heap::driver(|| out.events.push(StreamEvent {
                         op,
                         offered: 0,
                         result: res.map(|_| 0).map_err(errstr),
                         sink_len: st.borrow().accepted.len(),
                             fault_fired: st.borrow().fired_hard > fired_before,
-                    });
+                    }));
                 }
                 OP_PEEK | OP_PEEK_MUT => {
                     let gone = if op == OP_PEEK {
@@ -558,13 +558,13 @@ pub fn run_stream(
                     if gone {
                         out.output_gone = true;
                     }
-                    out.events.push(StreamEvent {
+                    crate::heap::driver(|| out.events.push(StreamEvent {
                         op,
                         offered: 0,
                         result: Ok(if gone { 0 } else { 1 }),
                         sink_len: st.borrow().accepted.len(),
                             fault_fired: st.borrow().fired_hard > fired_before,
-                    });
+                    }));
                 }
                 OP_FINISH => {
                     let s = stream.take().unwrap();
@@ -573,13 +573,13 @@ pub fn run_stream(
                         Ok(_) => Verdict::Ok,
                         Err(e) => Verdict::Err(errstr(e)),
                     };
-                    out.events.push(StreamEvent {
+                    crate::heap::driver(|| out.events.push(StreamEvent {
                         op,
                         offered: 0,
                         result: if v.is_ok() { Ok(0) } else { Err(v.short()) },
                         sink_len: st.borrow().accepted.len(),
                             fault_fired: st.borrow().fired_hard > fired_before,
-                    });
+                    }));
                     out.finish = Some(v);
                 }
                 _ => {}
